@@ -187,20 +187,25 @@ fn huge(ctx: &mut Ctx) {
 /// Well-formed tag sequences as the body: the verdict only depends on the size word and the last 8 bytes, whatever the
 /// tags in between are (further end tags included).
 fn bodies(ctx: &mut Ctx, arena: &Arena) {
-    let maxlen = if ctx.quick() { 4 } else { 5 };
-    ctx.bound("bodies", format!("regions whose body is every sequence of up to {} tags over {{end tag (0,8), string tag (1,13), custom (0x1337,8), module (3,17), custom with size 0}} followed by {{an end tag, a non-end tag, nothing}}; plus 64 KiB regions with an end tag in the middle", maxlen));
-    let alpha: [(u32, u32); 5] = [(0, 8), (1, 13), (0x1337, 8), (3, 17), (0x1337, 0)];
+    let maxlen = if ctx.quick() { 3 } else { 5 };
+    ctx.bound("bodies", format!("regions whose body is every sequence of up to {} tags over {{end tag (0,8), string tag (1,13), custom (0x1337,8), module (3,17), custom with size 0, eight zero bytes, a 16-byte custom tag whose payload is an end-tag image}} followed by {{an end tag, a non-end tag, nothing}}; plus 64 KiB regions with an end tag in the middle", maxlen));
+    // (type, size); the last two: eight zero bytes (type 0, size 0), and a custom tag of 16 bytes whose payload is an end-tag image
+    let alpha: [(u32, u32); 7] = [(0, 8), (1, 13), (0x1337, 8), (3, 17), (0x1337, 0), (0, 0), (0x4242, 16)];
     let mut regions: Vec<Vec<u8>> = vec![];
     for len in 0..=maxlen {
-        for code in 0..5usize.pow(len as u32) {
+        for code in 0..7usize.pow(len as u32) {
             for tail in 0..3 {
                 let mut r = vec![0u8; 8];
                 for i in 0..len {
-                    let (t, sz) = alpha[(code / 5usize.pow(i as u32)) % 5];
+                    let (t, sz) = alpha[(code / 7usize.pow(i as u32)) % 7];
                     let o = r.len();
                     r.resize(o + round8(sz as usize).max(8), 0x61);
                     wr32(&mut r, o, t);
                     wr32(&mut r, o + 4, sz);
+                    if t == 0x4242 {
+                        wr32(&mut r, o + 8, 0);
+                        wr32(&mut r, o + 12, 8);
+                    }
                 }
                 match tail {
                     0 => r.extend_from_slice(&[0, 0, 0, 0, 8, 0, 0, 0]),
